@@ -1108,3 +1108,48 @@ PROPS["C11"] = Prop(
     trusted=["std Read::read_exact, tokio read_exact, iroh-io 0.6.2 TokioStreamReader (take + read_to_end) as transcribed in Model/IOSched.v",
              "poll-level suspension is exhibited by the harness only: in the model an await is 'poll until ready' (C11 is partial there)"],
     assumptions=DEC_ASSUME)
+
+
+# ------------------------------------------------------------------ C10 fault enumeration
+F_FAULT = Family("fault", "Run.RunFault", "run_fault", "holds_fault", lambda a, o: a[6] > 0)
+F_FAULT.shard_cases = 60
+OP_OBJECTS = {0: (1, 7, 8), 2: (1, 7), 3: (1, 4), 4: (1, 4), 5: (2, 6, 4), 6: (2, 6, 4), 7: (2, 6, 4), 8: (2, 6, 4),
+              10: (3, 5, 7), 11: (3, 5, 7), 12: (6, 7), 13: (6, 7), 14: (6, 2)}
+
+
+def gen_c10(tier, rng):
+    cases = gen_sched(tier, rng, True)[:: (4 if tier == "quick" else 1)]
+    sizes = [1, 1025, 3 * 1024 + 5, 5 * 1024 + 7] if tier == "quick" else [0, 1, 1024, 1025, 2049, 3 * 1024 + 5, 5 * 1024 + 7, 8 * 1024 + 1]
+    for size in sizes:
+        n = nchunks(size)
+        for bs in (0, 1, 2):
+            sd = seed(rng)
+            for op, objs in OP_OBJECTS.items():
+                needs_q = op in (5, 6, 7, 8, 10, 11, 14)
+                qs = std_queries(n, rng, 1)[: (2 if tier == "quick" else 6)] if needs_q else [[]]
+                if needs_q:
+                    qs = [q for q in qs if q] or [[0]]
+                for q in qs:
+                    okind = rng.randrange(0, 4)
+                    base = [0, sd, size, bs, op]
+                    cases.append(("fault", base + [0, 0, 0, okind] + q))
+                    maxk = 2 * n + 4
+                    for fo in objs:
+                        ks = range(0, maxk) if tier == "thorough" else sorted(set([0, 1, 2, maxk - 1] + [rng.randrange(0, maxk) for _ in range(3)]))
+                        for k in ks:
+                            kinds = (0, 1, 2, 3) if tier == "thorough" else (rng.randrange(0, 4),)
+                            for kc in kinds:
+                                cases.append(("fault", base + [fo, k + 1, kc, okind] + q))
+    return cases
+
+
+PROPS["C10"] = Prop(
+    [F_FAULT, F_SCHED], gen_c10,
+    "fault: operations {sync / fsm outboard creation into an outboard (+sync), sync / fsm outboard_post_order, sync / fsm validating and non-validating "
+    "encoders, sync / fsm decode_ranges, sync / fsm copy, sync valid_ranges} x every io object involved (sequential data reader, positioned data reader, "
+    "stream reader, stream writer, target, outboard load / save / sync) x failing call index k (every k up to the fault-free count in thorough; first, "
+    "last and random in quick) x kinds {Other, UnexpectedEof, ConnectionReset, WriteZero}; observation = result + the full call log of the wrappers. "
+    "sched: the k-th read of a fragmenting stream reader fails. non-trivial = a fault is injected",
+    trusted=["the io wrappers of harness/src/fault.rs define what a 'call' is (one log entry per trait method call)",
+             "what the OS / runtime does around a failing call (partial writes inside write_all, cancellation of a pending future) is outside the model: C10 is partial there"],
+    assumptions=DEC_ASSUME)
